@@ -41,6 +41,26 @@ type GenOpts struct {
 	// VarOverPatternParam allows `var x` / `function x(){}` in the body of a function whose parameter x is bound by a
 	// pattern or rest element (excluded by default: listed known finding, see known-findings.d/C02.json).
 	VarOverPatternParam bool
+	// JumpOutOfFinally allows break/continue out of finally blocks at script / eval level (excluded by default: listed
+	// known finding C02-finally-nested-jump-completion).
+	JumpOutOfFinally bool
+	// CatchParamSeesBlock allows a destructuring catch parameter whose defaults mention names declared lexically in the
+	// catch block (excluded by default: listed known finding C02-catch-param-block-scope).
+	CatchParamSeesBlock bool
+	// NamedFuncExprNonSimple lets a function expression with a non-simple parameter list have a name (excluded by default:
+	// listed known finding C02-callee-binding-dropped).
+	NamedFuncExprNonSimple bool
+	// SurplusArgs lets calls pass more arguments than the (statically known) callee has parameters (limited by default:
+	// listed known finding C02-surplus-args-spill).
+	SurplusArgs bool
+	// ArgumentsInStrictEval allows `arguments` inside strict eval code (excluded by default: C02-strict-eval-arguments).
+	ArgumentsInStrictEval bool
+	// ForwardRefDefaults allows parameter defaults that mention their own or a later parameter (excluded by default:
+	// C02-forward-ref-param-defaults).
+	ForwardRefDefaults bool
+	// DeclsInTryBlock allows declarations with initialisers directly in a try block that has a catch clause at script /
+	// eval level (excluded by default: C02-catch-completion-value).
+	DeclsInTryBlock bool
 }
 
 type htype uint8
@@ -57,17 +77,18 @@ const (
 )
 
 type gfunc struct {
-	outer   *gfunc
-	arrow   bool
-	strict  bool
-	simple  bool // simple parameter list
-	method  bool // has a home object (super.x allowed)
-	ctor    bool
-	derived bool
-	done    bool
-	order   int // completion order (valid when done)
-	nparams int
+	outer     *gfunc
+	arrow     bool
+	strict    bool
+	simple    bool // simple parameter list
+	method    bool // has a home object (super.x allowed)
+	ctor      bool
+	derived   bool
+	done      bool
+	order     int // completion order (valid when done)
+	nparams   int
 	recursive bool // first parameter is a recursion depth: callers pass a small literal
+	hasRest   bool
 }
 
 type gbind struct {
@@ -99,26 +120,28 @@ type gscope struct {
 }
 
 type Gen struct {
-	r      Rand
-	o      GenOpts
-	budget int
-	scope  *gscope
-	fn     *gfunc
-	strict bool
-	loops  int // enclosing loops within the current function
-	swtch  int // enclosing switches
-	labels []glabel
-	nfuncs int
-	nfresh int
-	inEval int
-	exprD  int
-	inParams bool
+	r         Rand
+	o         GenOpts
+	budget    int
+	scope     *gscope
+	fn        *gfunc
+	strict    bool
+	loops     int // enclosing loops within the current function
+	swtch     int // enclosing switches
+	labels    []glabel
+	hidden    []glabel // labels in scope that may not be jumped to from here (see tryStmt)
+	noArgs    int      // inside strict eval code: `arguments` is not used (known finding)
+	nfuncs    int
+	nfresh    int
+	inEval    int
+	exprD     int
+	inParams  bool
 	inFinally int
-	noReturn bool // at the top level of eval code: return is a syntax error
-	fdepth   int  // function nesting depth
-	inTry    int
-	lastFn   *gfunc
-	lastCls  *gclass
+	noReturn  bool // at the top level of eval code: return is a syntax error
+	fdepth    int  // function nesting depth
+	inTry     int
+	lastFn    *gfunc
+	lastCls   *gclass
 }
 
 type glabel struct {
@@ -143,11 +166,19 @@ func NewGen(r Rand, o GenOpts) *Gen {
 	if o.Strict {
 		o.Off |= NoWith
 	}
+	// exclusions whose findings have been fixed in /repo (kept as options, on by default now):
+	// C02-var-over-pattern-param (0d668cd), C02-surplus-args-spill (386f001), C02-strict-eval-arguments (37bfbd2),
+	// C02-forward-ref-param-defaults (7bb1eac), C02-catch-completion-value (5eaf5ea)
+	o.VarOverPatternParam = true
+	o.SurplusArgs = true
+	o.ArgumentsInStrictEval = true
+	o.ForwardRefDefaults = true
+	o.DeclsInTryBlock = true
 	return &Gen{r: r, o: o}
 }
 
-func (g *Gen) off(f Feat) bool    { return g.o.Off&f != 0 }
-func (g *Gen) chance(pct int) bool { return g.r.Intn(100) < pct }
+func (g *Gen) off(f Feat) bool        { return g.o.Off&f != 0 }
+func (g *Gen) chance(pct int) bool    { return g.r.Intn(100) < pct }
 func (g *Gen) pick(l []string) string { return l[g.r.Intn(len(l))] }
 func (g *Gen) pickW(w ...int) int {
 	t := 0
